@@ -23,7 +23,20 @@ def main():
     from verif_sa.core import classify, AnalysisError
     root = "/repo"
     d = None
-    if seed != "-":
+    if seed.startswith("m:"):
+        # a mutant of tools/mutation_sweep.py, by its index in /tmp/ms/sweep.json
+        from tools import mutation_sweep as ms
+        muts = []
+        for rel in ms.DEFAULT_FILES:
+            muts.extend(ms.gen_mutants(rel, open(os.path.join("/repo", rel)).read()))
+        m = muts[int(seed[2:])]
+        print("mutant", seed, m["file"], m["func"], m["line"], m["op"], "|", m["old"][:60], "=>", m["new"][:60])
+        d = tempfile.mkdtemp(prefix="try_rule_")
+        shutil.copytree("/repo/mofun", os.path.join(d, "mofun"), ignore=shutil.ignore_patterns("__pycache__"))
+        with open(os.path.join(d, m["file"]), "w") as f:
+            f.write(m["src"])
+        root = d
+    elif seed != "-":
         patch = os.path.abspath(seed) if os.path.exists(seed) else os.path.join(ROOT, "seeded", seed, "patch.diff")
         d = tempfile.mkdtemp(prefix="try_rule_")
         shutil.copytree("/repo/mofun", os.path.join(d, "mofun"), ignore=shutil.ignore_patterns("__pycache__"))
